@@ -124,7 +124,8 @@ def generate(rng, tier):
             cases.append("sg.new %s %s" % (Zs(s), R(w)))
             cases.append("sg.assign_from_slice %s %s %s %s" % (N(1), I(-(B + 5)), Zs(s), R(w)))
     rng.shuffle(cases)      # so that the in-Coq sample (first cases) sees every op
-    return cases
+    import extra_cases          # API-audit additions (docs/API_COVERAGE.md); produced after the original cases
+    return cases + extra_cases.c19(rng, tier)
 
 def nontrivial(case):
     toks = case.split(" ")
